@@ -86,6 +86,9 @@ CHECKS = {
             dict(name='collapse-2', Depth=2, SeedIds=[2, 3, 5, 6, 8, 9],
                  HistOps=['collapse_edge', 'delete_cell', 'delete_vertex'],
                  TargetOps=['collapse_edge'], q=0, sample=600),
+            # split_edge / split_face (the callers of copy_property_elements) with a fresh isolated vertex
+            dict(name='splits', Depth=2, SeedIds=[2, 3, 5], HistOps=['add_vertex'],
+                 TargetOps=['split_edge', 'split_face'], q=0),
         ],
         thorough=[
             dict(name='collapse-2', Depth=2, SeedIds=[1, 2, 3, 4, 5, 6, 7, 8, 9, 10],
@@ -540,6 +543,9 @@ def run_check(prop, tier, seed, replay=None):
                 open(p, 'w').write('# ' + f.get('msg', '') + '\n# ' + f.get('detail', '').replace('\n', '\n# ') + '\n')
             cov['model_findings'].append(dict(msg=f['msg'], path=f.get('path', [])[-2:]))
         else:
+            if sum(1 for s_ in seen if s_[0] != 'k') >= 40:      # enough replay files for one run
+                rc = 1
+                continue
             p = write_replay(prop, kind, f, 'props=%d q=1' % cfg.get('plevel', 1))
         key = (f.get('msg'), sig['op'], sig['check']) if len(seen) > 12 else (f.get('msg'), p)
         if key in seen:
